@@ -317,7 +317,13 @@ struct ScaledUnit : Unit {
                   "Can only scale by a Magnitude<...> type");
     using Dim = detail::DimT<Unit>;
     using Mag = MagProductT<detail::MagT<Unit>, ScaleFactor>;
+
+    // We must not inherit the label of the unscaled unit: a new unit which is defined by inheriting
+    // from a scaled unit, and which supplies no label of its own, is unlabeled.
+    static constexpr auto &label = DefaultUnitLabel<void>::value;
 };
+template <typename Unit, typename ScaleFactor>
+constexpr decltype(DefaultUnitLabel<void>::value) &ScaledUnit<Unit, ScaleFactor>::label;
 
 // Type template to hold the product of powers of Units.
 template <typename... UnitPows>
